@@ -810,6 +810,33 @@ class Runner:
             if not blk:
                 break
             ex.solver.add(z3.Or(blk))
+        # Counter-models over the uninterpreted normal distribution need not be realistic: ask again with the tabulated
+        # true values of Phi / Phi^-1 as bracketing facts (sound extra constraints) and replay those models
+        try:
+            from .scipy import stats as _st
+
+            extra = _st.bracket_constraints(ex)
+        except Exception:  # noqa: BLE001
+            extra = []
+        if extra:
+            ex.solver.push()
+            ex.solver.add(extra)
+            for _ in range(10):
+                if ex.check() != "sat":
+                    break
+                m = ex.solver.model()
+                w = self._witness_from(h, m)
+                rp = replay(self.run, self.params, w, self.tol)
+                last = rp
+                if (rp["status"] == "ok" and rp["failed"]) or rp["status"] == "exception":
+                    ex.solver.pop()
+                    self._violation(name, w, rp, kind="obligation" if rp["status"] == "ok" else "exception-in-replay")
+                    return "sat-reproduced"
+                blk = [(z3.Not(z3.fpEQ(c, m.eval(c, model_completion=True))) if z3.is_fp(c) else c != m.eval(c, model_completion=True)) for c in h.inputs.values()]
+                if not blk:
+                    break
+                ex.solver.add(z3.Or(blk))
+            ex.solver.pop()
         # No model reproduced.  z3's nonlinear 'sat' answers are not always backed by an exact model: ask the complete
         # procedures once more on the same assertions; 'unsat' there settles the obligation.
         if self._retry_unknown(ex) == "unsat":
